@@ -1,3 +1,146 @@
-From GV Require Import Lib.Tactics PathDB.Index.
-Theorem C19_placeholder : True. Proof. exact I. Qed.
-Print Assumptions C19_placeholder.
+(* Properties/C19.v — History index behaves as a sorted set of state ids.
+   Property theorems only; each is closed by [exact] of a lemma of
+   PathDB/IndexProofs.v about the model PathDB/Index.v of
+   /repo/triedb/pathdb/history_index_block.go (and history_index.go,
+   history_index_iterator.go), for indexes without per-element extensions.
+
+   [bw_reach b]: b is a blockWriter state reached from a fresh writer by
+   appends of uint64 ids made while estimateFull() is false (the guard
+   indexWriter.append enforces before every append) and by pops.
+   [bw_abs b]: the ids decoded from b's restart array and data bytes.
+   [asc 0 l]: l is strictly ascending, positive, below 2^64.
+
+   PROVED IN FULL (single block, writer side and encoding):
+     append_abs, append_guard, pop_abs, pop_guard, sorted, desc, finish_parse,
+     finish_empty_rejected, parse_total, uvarint round trip.
+   NOT PROVED (stated here in full, covered only by the correspondence run and
+   the Go-side oracle):
+     read_gt_least  : forall b q, bw_reach b -> bw_abs b <> [] ->
+                      new_block_reader (bw_finish b) = Ok r ->
+                      br_read_gt r q = Ok (Ok (least x in bw_abs b with q < x, else maxU64))
+     iter_yields_abs: ... bi_drain fuel r (bi_reset r) [] = Ok (_, bw_abs b)
+     reader_total   : forall blob r q, new_block_reader blob = Ok r ->
+                      bi_seek_gt / bi_next / br_read_gt never return Err EPanic / Err EFuel
+     trim_abs       : new_block_writer (bw_finish b) d limit keeps exactly the ids <= limit
+     the multi-block layer (iw_append rotation, id_pop dropping emptied blocks,
+     ir_read_gt / ii_next across blocks, db_abs after iw_finish / id_finish). *)
+From GV Require Import Lib.Tactics Lib.Uvarint Lib.UvarintProofs PathDB.Index PathDB.IndexProofs.
+Local Open Scope N_scope.
+
+(* LEB128: decoding an encoding gives the value and its length back, whatever follows *)
+Theorem C19_uvarint_round_trip : forall x rest,
+  x < two64 -> uvarint (put_uvarint x ++ rest) = UvOk x (length (put_uvarint x)).
+Proof. exact uvarint_put. Qed.
+Print Assumptions C19_uvarint_round_trip.
+
+(* a successful append adds exactly the id at the end *)
+Theorem C19_append_abs : forall b id b',
+  bw_reach b -> id < two64 -> bw_estimate_full b = false ->
+  bw_append b id = Ok b' -> bw_abs b' = bw_abs b ++ [id].
+Proof. exact append_abs. Qed.
+Print Assumptions C19_append_abs.
+
+(* append succeeds iff the id is non-zero and above the last stored id; otherwise
+   it fails with exactly the class of the violated guard *)
+Theorem C19_append_guard : forall b id,
+  bw_reach b -> id < two64 -> bw_estimate_full b = false ->
+  ((exists b', bw_append b id = Ok b') <-> (id <> 0 /\ last (bw_abs b) 0 < id)) /\
+  (bw_append b id = Err EZeroId <-> id = 0) /\
+  (bw_append b id = Err EAppendOrder <-> (id <> 0 /\ id <= last (bw_abs b) 0)).
+Proof. exact append_guard. Qed.
+Print Assumptions C19_append_guard.
+
+(* a successful pop removes exactly the last id (all three cases of pop: last
+   element, last element of a restart section, inside a section) *)
+Theorem C19_pop_abs : forall b id b',
+  bw_reach b -> bw_pop b id = Ok b' -> bw_abs b' = removelast (bw_abs b).
+Proof. exact pop_abs. Qed.
+Print Assumptions C19_pop_abs.
+
+(* pop succeeds iff the id is the (non-zero) last stored id; it never panics,
+   never runs out of fuel and never reports "not found" on a reachable writer *)
+Theorem C19_pop_guard : forall b id,
+  bw_reach b ->
+  ((exists b', bw_pop b id = Ok b') <-> (id <> 0 /\ bw_abs b <> [] /\ id = last (bw_abs b) 0)) /\
+  (bw_pop b id = Err EZeroId <-> id = 0) /\
+  (bw_pop b id = Err EPopOrder <-> (id <> 0 /\ id <> last (bw_abs b) 0)).
+Proof. exact pop_guard. Qed.
+Print Assumptions C19_pop_guard.
+
+(* invariant: the stored ids are strictly ascending positive uint64s *)
+Theorem C19_sorted_strict : forall b, bw_reach b -> asc 0 (bw_abs b).
+Proof. exact reach_sorted. Qed.
+Print Assumptions C19_sorted_strict.
+
+(* the descriptor tells the truth: max = last id, entries = number of ids *)
+Theorem C19_desc_consistent : forall b,
+  bw_reach b -> d_max (bw_desc b) = last (bw_abs b) 0 /\ d_entries (bw_desc b) = lenN (bw_abs b).
+Proof. exact reach_desc. Qed.
+Print Assumptions C19_desc_consistent.
+
+(* write/read round trip at every reachable state: parseIndexBlock(finish(w))
+   returns w's restart array and data, and reopening the bytes with w's
+   descriptor and a limit that trims nothing gives back w itself *)
+Theorem C19_finish_parse : forall b limit,
+  bw_reach b -> bw_abs b <> [] -> last (bw_abs b) 0 <= limit ->
+  parse_index_block (bw_finish b) = Ok (bw_restarts b, bw_data b) /\
+  new_block_writer (bw_finish b) (bw_desc b) limit = Ok b.
+Proof. exact finish_parse. Qed.
+Print Assumptions C19_finish_parse.
+
+(* the encoding of an empty block is not a valid block *)
+Theorem C19_finish_empty_rejected : forall b,
+  bw_reach b -> bw_abs b = [] -> parse_index_block (bw_finish b) = Err ENoRestart.
+Proof. exact finish_empty_rejected. Qed.
+Print Assumptions C19_finish_empty_rejected.
+
+(* parseIndexBlock is total on arbitrary bytes: every slice access of the model is
+   checked, and no byte string reaches an out-of-range access or exhausts a loop *)
+Theorem C19_parse_total : forall blob,
+  parse_index_block blob <> Err EPanic /\ parse_index_block blob <> Err EFuel.
+Proof. exact parse_index_block_total. Qed.
+Print Assumptions C19_parse_total.
+
+(* REFUTED for the writer path: "corrupted block bytes are rejected without
+   panic or hang".  The block  80 | 0000 | 01  (data = one continuation byte,
+   one restart at 0) passes parseIndexBlock, a writer opens on it, and the
+   section scan of pop(5) makes no progress for ANY amount of fuel
+   (binary.Uvarint returns n = 0, scanSection does `pos += n` unchecked).
+   Replayed on the implementation: harness/c19/finding_test.go. *)
+Theorem C19_corrupt_block_writer_total_refuted :
+  exists blob d b,
+    new_block_writer blob d maxU64 = Ok b /\
+    bw_pop b 5 = Err EFuel /\
+    forall fuel s, scan_loop fuel (bw_data b) 0 1 (search_fn 5) 0 (bw_data b) 0 s = Err EFuel.
+Proof.
+  exists [128; 0; 0; 1], (mkDesc 5 2 0), (mkBW (mkDesc 5 2 0) [0] [128]).
+  split; [vm_compute; reflexivity|]. split; [vm_compute; reflexivity|].
+  exact corrupt_scan_diverges.
+Qed.
+Print Assumptions C19_corrupt_block_writer_total_refuted.
+
+(* non-vacuity: 600 ids spanning three restart sections are appended under the
+   guards (so the state is reachable), read back, popped across a section
+   boundary, and the round trip holds on the concrete bytes *)
+Example C19_nonvacuous :
+  let ids := map (fun i => 1000 + 300 * N.of_nat i) (seq 0 600) in
+  exists b b1 b2,
+    build ids (mkBW (mkDesc 0 0 0) [] []) = Some b /\
+    bw_abs b = ids /\ length (bw_restarts b) = 3%nat /\
+    parse_index_block (bw_finish b) = Ok (bw_restarts b, bw_data b) /\
+    bw_pop b 180700 = Ok b1 /\ bw_abs b1 = removelast ids /\
+    build (firstn 513 ids) (mkBW (mkDesc 0 0 0) [] []) = Some b2 /\
+    (exists b3, bw_pop b2 154600 = Ok b3 /\ length (bw_restarts b3) = 2%nat /\ bw_abs b3 = firstn 512 ids).
+Proof.
+  cbv zeta.
+  destruct (build (map (fun i => 1000 + 300 * N.of_nat i) (seq 0 600)) (mkBW (mkDesc 0 0 0) [] [])) as [b|] eqn:Eb;
+    [|vm_compute in Eb; discriminate].
+  destruct (bw_pop b 180700) as [b1|] eqn:E1; [|vm_compute in Eb; inversion Eb; subst b; vm_compute in E1; discriminate].
+  destruct (build (firstn 513 (map (fun i => 1000 + 300 * N.of_nat i) (seq 0 600))) (mkBW (mkDesc 0 0 0) [] [])) as [b2|] eqn:Eb2;
+    [|vm_compute in Eb2; discriminate].
+  exists b, b1, b2.
+  vm_compute in Eb. inversion Eb; subst b. vm_compute in E1. inversion E1; subst b1.
+  vm_compute in Eb2. inversion Eb2; subst b2.
+  repeat split; try (vm_compute; reflexivity).
+  eexists. split; [vm_compute; reflexivity|]. split; vm_compute; reflexivity.
+Qed.
